@@ -17,8 +17,9 @@ import time
 
 ROOT = os.path.dirname(os.path.dirname(os.path.abspath(__file__)))
 REPO = os.environ.get("VERIF_REPO", "/repo")
-COQ = os.path.join(ROOT, "coq")
-BUILD = os.path.join(ROOT, "build")
+# a snapshot of /verif (bin/mutcheck) shares the compiled development and build products of the live tree
+COQ = os.environ.get("VERIF_COQ", os.path.join(ROOT, "coq"))
+BUILD = os.environ.get("VERIF_BUILD", os.path.join(ROOT, "build"))
 HARNESS = os.environ.get("VERIF_HARNESS", os.path.join(ROOT, "harness"))
 # where evidence/ and replays/ are written (mutation experiments point this elsewhere)
 OUTDIR = os.environ.get("VERIF_OUT", ROOT)
